@@ -11,8 +11,8 @@ GRID = [-3, -2, -1, -0.5, -0.25, 0, 0.25, 0.5, 1, 1.5, 2, 3, 4]
 CONSTS = [-2, -1, -0.5, 0, 0.5, 1, 2, 3, 1.5, 4, -3]
 NS = [1, 2, 2, 3, 3, 4, 5, 6]
 WIDE_NS = list(range(7, 31)) + [33, 45, 64, 81, 100, 255]     # every residue class a shortcut might single out
-EXP_BASES = [math.e, math.e, 2, 0.5, 10, 3, 1, 2.0, 0.25]
-LOG_BASES = [math.e, math.e, 2, 0.5, 10, 3, 2.0, 0.25]
+EXP_BASES = [math.e, math.e, 2, 0.5, 10, 3, 1, 2.0, 0.25, 1.0000000001, 0.9999999999, 2.718281828, 2.7182818285]
+LOG_BASES = [math.e, math.e, 2, 0.5, 10, 3, 2.0, 0.25, 1.0000000001, 0.9999999999, 2.718281828, 2.7182818285]
 
 LEAVES = ["Constant", "Variable"]
 RATIONAL = ["Add", "Multiply", "Minus", "Negation", "Divide", "Reciprocal", "NthPower"]
@@ -580,11 +580,18 @@ def scaled(rng: random.Random, count: int) -> list[tuple[str, object]]:
             e = op(*[op(small(), small(), op(small(), small())) for _ in range(rng.randint(3, 6))], small())
             tag = "nested-wide"
         else:               # products of many powers / exponentials / roots of the same things (consolidation with many groups)
-            fs = []
-            for _ in range(rng.randint(6, 12)):
-                v = V[rng.choice(names[:4])]
-                fs.append(rng.choice([X.NthPower(v, rng.randint(1, 4)), X.Exponential(v, base=rng.choice([math.e, 2, 3])),
-                                      X.NthRoot(X.Add(C(2), X.NthPower(v, 2)), rng.choice([2, 3])), X.Reciprocal(X.Add(C(2), X.Sine(v))), v, C(2)]))
+            # factors drawn with replacement from a small stock, above and below the line: the same power,
+            # exponential or root several times over, to be consolidated and cancelled with the right multiplicities
+            stock = []
+            for _ in range(rng.randint(3, 5)):
+                v = V[rng.choice(names[:3])]
+                b = rng.choice([math.e, 2, 3])
+                stock.append(rng.choice([
+                    lambda v=v: X.NthPower(v, rng.randint(1, 4)), lambda v=v, b=b: X.Exponential(v, base=b),
+                    lambda v=v, b=b: X.Exponential(X.Negation(v), base=b), lambda v=v, b=b: X.Reciprocal(X.Exponential(v, base=b)),
+                    lambda v=v: X.NthRoot(X.Add(C(2), X.NthPower(v, 2)), rng.choice([2, 3])), lambda v=v: X.Reciprocal(X.Add(C(2), X.Sine(v))),
+                    lambda v=v: X.Reciprocal(X.NthPower(X.Add(C(2), X.Cosine(v)), 2)), lambda v=v: v, lambda v=v: C(2)]))
+            fs = [rng.choice(stock)() for _ in range(rng.randint(3, 12))]
             e = X.Multiply(*fs) if rng.random() < 0.7 else X.Add(*[X.Logarithm(X.Add(C(2), X.NthPower(f, 2)), base=rng.choice([math.e, 2])) for f in fs])
             tag = "many-groups"
         out.append(("scale:" + tag, e))
@@ -631,3 +638,64 @@ def heavy_sums(rng: random.Random, count: int) -> list[tuple[str, object]]:
             e = X.Add(*terms)
         out.append(("heavy", e))
     return out
+
+
+def cancelling_products(rng: random.Random, count: int) -> list[tuple[str, object]]:
+    """products and quotients in which the same factor stands k times above and m times below the line, in
+    every spelling of "below" (Reciprocal, Divide, negative exponent, power of a reciprocal): what is left
+    after cancelling must have the right multiplicity; sums with repeated and negated terms likewise"""
+    names = ["x", "y", "z"]
+    C = X.Constant
+    out = []
+    for _ in range(count):
+        v = X.Variable(rng.choice(names))
+        w = X.Variable(rng.choice(names))
+        b = rng.choice([math.e, 2, 3, 0.5])
+        f = rng.choice([
+            lambda: X.Exponential(v, base=b), lambda: X.Add(C(2), X.Sine(v)), lambda: v, lambda: X.NthPower(v, rng.choice([2, 3])),
+            lambda: X.NthRoot(X.Add(C(3), X.NthPower(v, 2)), rng.choice([2, 3])), lambda: X.Add(C(1), X.NthPower(X.Multiply(v, w), 2)),
+            lambda: X.Logarithm(X.Add(C(3), X.NthPower(v, 2)), base=b), lambda: X.Cosine(X.Multiply(C(0.5), v))])
+
+        def below():
+            g = f()
+            k = rng.randrange(5)
+            if k == 0:
+                return X.Reciprocal(g)
+            if k == 1 and wire_cls(g) == "Exponential":
+                return X.Exponential(X.Negation(g._inner), base=g._parameter)
+            if k == 2:
+                return X.Divide(C(1), g)
+            if k == 3:
+                return X.NthPower(X.Reciprocal(g), 1)
+            return X.Reciprocal(X.NthPower(g, 1))
+        up, down = rng.randint(0, 3), rng.randint(0, 3)
+        others = [rng.choice([w, C(2), X.Sine(w), X.Add(w, C(1))]) for _ in range(rng.randint(0, 2))]
+        if rng.random() < 0.7:
+            fs = [f() for _ in range(up)] + [below() for _ in range(down)] + others
+            rng.shuffle(fs)
+            e = X.Multiply(*fs) if rng.random() < 0.6 else functools_reduce_mul(fs)
+            tag = f"product:{up}/{down}"
+        else:
+            ts = [f() for _ in range(up)] + [X.Negation(f()) if rng.random() < 0.6 else X.Multiply(C(-1), f()) for _ in range(down)] + others
+            rng.shuffle(ts)
+            e = X.Add(*ts)
+            tag = f"sum:{up}/{down}"
+        out.append(("cancel:" + tag, e))
+    return out
+
+
+def wire_cls(e) -> str:
+    return type(e).__name__
+
+
+def functools_reduce_mul(fs: list):
+    if not fs:
+        return X.Multiply()
+    e = fs[0]
+    for t in fs[1:]:
+        e = e * t if rng_free_coin(e, t) else X.Divide(e, X.Reciprocal(t))
+    return e
+
+
+def rng_free_coin(a, b) -> bool:
+    return (len(repr(a)) + len(repr(b))) % 3 != 0
